@@ -187,12 +187,17 @@ void one_case(Ctx &c) {
         }
       }
       if (!respond) {   // the server went silent: the transfer ends at exactly its own timeout
+        // mode nmt-change-while-waiting: the NMT master stops the node, sends it to PRE-OPERATIONAL or starts it while the client waits (derived from the
+        // payload seed: no extra tape choice); the statement ties callback and abort frame to the timeout alone
+        uint8_t ncs = 0; if (c.param == 2) { static const uint8_t CS[3] = {2, 128, 1}; ncs = CS[SplitMix(0x57A7u ^ pseed).next() % 3]; s.rx(Frame::mk(0, 2, {ncs, 0})); s.clear_tx(); VLOG(c, "  NMT command %u while the client waits", ncs); c.cls(ncs == 2 ? "node-stopped-while-the-client-waits" : "nmt-state-changed-while-the-client-waits"); }
         long due = lastreq + tmo;
         while (s.tick < due - 1) { tick(); CHECK(c, cb.count == 0 && s.tx.empty(), "timeout-exact", "transfer ended at tick %ld, its timeout of %d ms (armed at tick %ld) ends at tick %ld", s.tick, tmo, lastreq, due); }
         tick();
         CHECK(c, cb.count == 1 && cb.code == 0x05040000u, "timeout-exact", "at the timeout tick %ld: %d callback(s) with code %08X, expected one with 05040000", due, cb.count, cb.code);
         CHECK(c, s.tx.size() == 1 && s.tx[0].id == txid[n] && s.tx[0].d[0] == 0x80 && s.tx[0].u32(4) == 0x05040000u, "timeout-abort-frame", "at the timeout the client sent %zu frame(s)%s%s, expected one abort frame 05040000 on %03X", s.tx.size(), s.tx.empty() ? "" : ": ", s.tx.empty() ? "" : s.tx[0].str().c_str(), txid[n]);
-        s.clear_tx(); expcode = 0x05040000u; finished = true; break;
+        s.clear_tx(); expcode = 0x05040000u; finished = true;
+        if (ncs == 2) { s.rx(Frame::mk(0, 2, {128, 0})); s.clear_tx(); }   // back to PRE-OPERATIONAL for the transfers that follow
+        break;
       }
       int delay = (int)c.t.below(3); if (delay >= tmo) delay = 0;     // a late (but in time) answer
       // a frame that, by its command specifier, toggle bit or multiplexer, cannot be the awaited response (the answer to an earlier,
@@ -310,10 +315,12 @@ Registrar reg(Prop{
     "In a fifth of the transfers the application asks for its next transfer from inside the completion callback: refused (busy) or accepted - then that transfer has to complete exactly once with the server's bytes. "
     "In a quarter of the undisturbed transfers application timers occupy every remaining slot of the timer pool while the transfer runs (it needs no second slot at any moment). In a third of the configurations a request is made with the timer pool exhausted by application timers: accepted (and then completed normally) or refused - then the client must be usable again as soon as a slot is free. "
     "user buffers are exact-size heap blocks (ASan red zones); download buffers unmodified (conforming servers); timer-pool occupancy after completion equals the one before; client idle; no callback or frame during the idle gap or on a late server frame. For malformed servers only exactly-once (by the timeout at the latest), memory safety and nothing-left-behind are asserted. "
+    "Mode nmt-change-while-waiting: when the server goes silent the NMT master stops the node, sends it to PRE-OPERATIONAL or starts it while the client waits: one callback with 0504 0000h and the abort frame at exactly the timeout all the same. "
     "Mode large-transfer: the first transfer of the case moves 65529..66935 or 131065..131080 bytes (a firmware image) under the same oracle. "
     "Non-trivial: >= 2 transfers in the case or a segmented transfer. Distinct = distinct decoded choice sequence.",
     {Mode{"random", one_case, false, 1200000, 15000000, 0, 0, 400, 1500},
-     Mode{"large-transfer", one_case, false, 3000, 60000, 1, 1, 200, 300}},
+     Mode{"large-transfer", one_case, false, 3000, 60000, 1, 1, 200, 300},
+     Mode{"nmt-change-while-waiting", one_case, false, 250000, 4000000, 2, 2, 400, 1500}},
     {"timer frequency 1000 Hz (1 ms = 1 tick)", "for uploads the application passes the object's size as buffer size (the client refuses a different announced size by design)"}});
 
 }  // namespace
